@@ -497,6 +497,9 @@ class Ctx:
             print(f'VIOLATION property={self.pid} replay={rel} no-failing-input-found', flush=True)
             self.violations += 1
         self.cov['broken'] = [b['name'] for b in self.broken]
+        if 'exhaustive' in self.cov and not isinstance(self.cov['exhaustive'], bool):
+            # the schema wants a boolean: descriptions of exhaustively enumerated SUB-spaces go to their own key
+            self.cov['exhaustive_subspaces'] = self.cov.pop('exhaustive')
         ev = {
             'property_id': self.pid, 'tier': self.tier, 'seed': self.seed, 'level': 'proof',
             'coverage': self.cov, 'assumptions': self.assumptions + self.cov.pop('extra_assumptions', []),
